@@ -167,7 +167,7 @@ Lemma every_way_same : forall c pd f ai, valid_c c -> enough (c_fmt c) pd ->
   let n := f_frames (c_fmt c) in
   (forall cache, snd (st_one (Img c pd cache) f ai) = answer c pd f ai) /\
   (forall cache, snd (st_batch (Img c pd cache) [f] ai) = rmap (fun a => [a]) (answer c pd f ai)) /\
-  lz_one (LImg c pd None) f ai = rmap (pair c) (answer c pd f ai) /\
+  snd (lz_one (LImg c pd None) f ai) = answer c pd f ai /\
   (forall i, std_index n f ai = Ok i ->
      exists fs, whole_array_c c pd = Ok fs /\ answer c pd f ai = Ok (nth (Z.to_nat i) fs [])) /\
   (forall lazy, bind (get_raw_frame lazy (c_fmt c) pd f ai) (fun raw =>
@@ -180,9 +180,9 @@ Proof.
   - intros cache. rewrite (proj1 (st_batch_spec [f] (Img c pd cache) ai Hv He)).
     unfold ref_batch, ref_one. cbn [map sequence i_c i_pd]. fold n.
     destruct (std_index n f ai); reflexivity.
-  - unfold lz_one. cbn [l_c l_pd l_cache]. fold n.
-    destruct (index_total n f ai) as [(i & E & Hi) | E]; rewrite E; cbn [bind rmap]; [|reflexivity].
-    rewrite frame_lazy_c_eager, (frame_eager_c_ok c pd i Hv He Hi). reflexivity.
+  - unfold lz_one. cbn [l_c l_pd l_cache]. cbv zeta. fold n.
+    destruct (index_total n f ai) as [(i & E & Hi) | E]; rewrite E; cbn [bind fst snd]; [|reflexivity].
+    rewrite frame_lazy_c_eager. apply (frame_eager_c_ok c pd i Hv He Hi).
   - intros i E. rewrite E. cbn [bind]. exists (map (spec_frame_c c pd) (zrange n)).
     split; [now apply whole_array_c_spec|].
     apply index_rule in E. assert (Hi : 0 <= i < n) by lia.
